@@ -168,6 +168,10 @@ func ruleEUnits(p *Program, r *Reporter) {
 					}
 					if (x.Op == token.ADD || x.Op == token.SUB) && (isPhys(ux) && nonzeroConst(x.Y) || isPhys(uy) && nonzeroConst(x.X)) {
 						n++
+						if onlyGatedByteReads(x, map[ssa.Value]bool{}) {
+							r.OK(x.Pos(), fmt.Sprintf("%s int-op#%d %s", name, n, x.Op), "a byte position moved by one, used for nothing but reading single bytes that are tested to be ASCII before they are used (an ASCII byte is a whole code point wherever it stands) and for the loop's own bookkeeping")
+							continue
+						}
 						r.Bad(instrPos(x), fmt.Sprintf("%s int-op#%d %s", name, n, x.Op), "a byte offset is moved by a constant ("+x.String()+"): widths of characters come from decoding, a fixed step lands inside a multi-byte character")
 						continue
 					}
@@ -442,4 +446,128 @@ func singleByteString(b *ssa.BasicBlock, s ssa.Value) bool {
 		}
 	}
 	return false
+}
+
+// asciiGatedIndex: ix reads one byte of a string, and the byte is used only to be compared with utf8.RuneSelf (0x80), or
+// where that comparison has come out "below" (a dominating fact): an ASCII byte never is part of a longer code point.
+func asciiGatedIndex(ix ssa.Value) bool {
+	refs := ix.Referrers()
+	if refs == nil {
+		return false
+	}
+	isGate := func(in ssa.Instruction) bool {
+		bo, ok := in.(*ssa.BinOp)
+		if !ok {
+			return false
+		}
+		var k ssa.Value
+		switch {
+		case bo.X == ix:
+			k = bo.Y
+		case bo.Y == ix:
+			k = bo.X
+		default:
+			return false
+		}
+		c, ok := k.(*ssa.Const)
+		if !ok || c.Value == nil || c.Value.Kind() != constant.Int {
+			return false
+		}
+		v, _ := constant.Int64Val(c.Value)
+		switch bo.Op {
+		case token.LSS, token.GEQ:
+			return bo.X == ix && v == 0x80 || bo.Y == ix && false
+		case token.LEQ, token.GTR:
+			return bo.X == ix && v == 0x7f
+		}
+		return false
+	}
+	below := func(b *ssa.BasicBlock) bool {
+		for _, f := range blockFacts(b) {
+			op, x, y, ok := f.rel()
+			if !ok || x != ix {
+				continue
+			}
+			c, ok := y.(*ssa.Const)
+			if !ok || c.Value == nil || c.Value.Kind() != constant.Int {
+				continue
+			}
+			v, _ := constant.Int64Val(c.Value)
+			if op == token.LSS && v <= 0x80 || op == token.LEQ && v <= 0x7f {
+				return true
+			}
+		}
+		return false
+	}
+	gates := 0
+	for _, ref := range *refs {
+		if _, isDbg := ref.(*ssa.DebugRef); isDbg {
+			continue
+		}
+		if isGate(ref) {
+			gates++
+			continue
+		}
+		if !below(ref.Block()) {
+			return false
+		}
+	}
+	return gates > 0
+}
+
+// onlyGatedByteReads: the integer v (a byte position in a string) and everything computed from it by +-1 steps and
+// merges is used for nothing but ASCII-gated single-byte reads, comparisons, and indexing of byte buffers.
+func onlyGatedByteReads(v ssa.Value, seen map[ssa.Value]bool) bool {
+	if seen[v] {
+		return true
+	}
+	seen[v] = true
+	refs := v.Referrers()
+	if refs == nil {
+		return false
+	}
+	reads := 0
+	for _, ref := range *refs {
+		switch x := ref.(type) {
+		case *ssa.DebugRef:
+		case *ssa.Index:
+			if x.Index != v || !isStringType(x.X.Type()) || !asciiGatedIndex(x) {
+				return false
+			}
+			reads++
+		case *ssa.IndexAddr:
+			// position in a byte buffer being filled
+			if x.Index != v {
+				return false
+			}
+			if sl, ok := derefType(x.X.Type()).Underlying().(*types.Slice); !ok || !isByteType(sl.Elem()) {
+				if sl2, ok2 := x.X.Type().Underlying().(*types.Slice); !ok2 || !isByteType(sl2.Elem()) {
+					return false
+				}
+			}
+		case *ssa.BinOp:
+			switch x.Op {
+			case token.LSS, token.LEQ, token.GTR, token.GEQ, token.EQL, token.NEQ:
+			case token.ADD, token.SUB:
+				if !onlyGatedByteReads(x, seen) {
+					return false
+				}
+			default:
+				return false
+			}
+		case *ssa.Phi:
+			if !onlyGatedByteReads(x, seen) {
+				return false
+			}
+		default:
+			return false
+		}
+	}
+	_ = reads
+	return true
+}
+
+func isByteType(t types.Type) bool {
+	b, ok := t.Underlying().(*types.Basic)
+	return ok && b.Kind() == types.Uint8
 }
